@@ -15,8 +15,8 @@ META["explanation"] = (
 META["bounds"] = {"quick": {"workers": "1", "items": "<=1", "faults": "begin raises / functor raises (solver's choice)", "quota": "none, 1"},
                   "thorough": {"workers": "1,2", "items": "<=1 all schedules; <=2 with at most 2 pre-emptions", "faults": "as quick", "quota": "none, 1"}}
 META["outside_bounds"] = list(c01.META["outside_bounds"]) + [
-    "FactoryFunctorPool: lifecycle of REPLACED workers (dynamic worker creation by ReplaceWorkerThread is not encoded: the "
-    "6-thread replacement configurations were measured out of reach of the BMC back end, DESIGN.md section 3.4/6)",
+    "FactoryFunctorPool (thorough tier): lifecycle of the initial and the replaced worker is decided only for schedules with "
+    "at most 2 pre-emptions, one replacement, n <= 1",
     "in raising runs the call itself is not required to terminate (only the lifecycle is checked)"]
 
 
